@@ -57,6 +57,7 @@ mutant("m16c", "C16", "asmjit/core/codeholder.cpp", "  self->_address_table_sect
 mutant("m16d", "C16", "asmjit/core/emitter.cpp", "  ASMJIT_ASSERT(_code == &code);\n  Support::maybe_unused(code);\n\n  _inst_options = InstOptions::kNone;", "  ASMJIT_ASSERT(_code == &code);\n  Support::maybe_unused(code);\n", "one-shot instruction options survive reinit")
 mutant("m16e", "C16", "asmjit/core/codeholder.cpp", "  memset(section->_name.str, 0, sizeof(section->_name.str));\n", "", "revert fix: section name not terminated (depends on heap contents)")
 mutant("m16f", "C16", "asmjit/core/codeholder.cpp", "  self->_fixups = nullptr;\n  self->_fixup_data_pool.reset();\n  self->_unresolved_fixup_count = 0;", "  self->_fixups = nullptr;\n  self->_fixup_data_pool.reset();", "unresolved fixup count kept across reset")
+mutant("m16g", "C16", "asmjit/core/builder.cpp", "  ErrorHandler* prev = has_emitter_flag(EmitterFlags::kOwnErrorHandler) ? error_handler() : nullptr;", "  ErrorHandler* prev = error_handler();", "revert fix: run_passes() makes an inherited error handler the emitter's own")
 # ---- C18 -----------------------------------------------------------------------------------------------------------
 mutant("m18a", "C18", "asmjit/support/arena.cpp", "    ManagedBlock* block_to_free = next;\n    next = next->next;\n\n    cur_block->next = next;\n    Arena_free(block_to_free);", "    ManagedBlock* block_to_free = next;\n    cur_block->next = next;\n\n    next = next->next;\n    Arena_free(block_to_free);", "revert fix: freed block stays linked after soft reset")
 mutant("m18b", "C18", "asmjit/support/arenavector.cpp", "  size_t allocated_capacity = item_count_from_byte_size(allocated_size, item_size);\n", "  size_t allocated_capacity = item_count_from_byte_size(allocated_size, item_size) + 1u;\n", "vector capacity one element larger than its storage")
@@ -72,6 +73,7 @@ mutant("m19b", "C19", "asmjit/core/constpool.cpp", "offset + (i * smaller_size),
 mutant("m19c", "C19", "asmjit/core/constpool.cpp", "  memset(dst, 0, _size);\n", "  if (_size < 64) memset(dst, 0, _size);\n", "gaps of larger pools are not zeroed")
 mutant("m19d", "C19", "asmjit/core/constpool.cpp", "    size_t diff = Support::align_up_diff<size_t>(_size, size);", "    size_t diff = Support::align_up_diff<size_t>(_size, size > 32 ? 32 : size);", "64-byte constants only 32-byte aligned")
 # ---- C14 -----------------------------------------------------------------------------------------------------------
+mutant("m19e", "C19", "asmjit/core/constpool.cpp", "  node->_offset = uint32_t(offset);\n  _tree[tree_index].insert(node);", "  node->_offset = uint32_t(offset);\n  if (size == 2 && _size > 64) { _size += 2; return make_error(Error::kOutOfMemory); }\n  _tree[tree_index].insert(node);", "add() of a 2-byte constant fails late (after the pool grew) once the pool is larger than 64 bytes")
 mutant("m14a", "C14", "asmjit/x86/x86assembler.cpp", "          if (ASMJIT_UNLIKELY(!_code->is_label_valid(base_label_id))) {\n            goto InvalidLabel;\n          }\n\n          label = &_code->label_entry_of(base_label_id);\n          err = _code->new_reloc_entry",
        "          if (ASMJIT_UNLIKELY(!_code->is_label_valid(base_label_id))) {\n          }\n\n          label = &_code->label_entry_of(base_label_id);\n          err = _code->new_reloc_entry", "revert fix: x86-32 [label] path does not reject invalid label ids")
 mutant("m14b", "C14", "asmjit/core/emitterutils.cpp", "  self->reset_state();\n  return self->report_error(err, sb.data());", "  Error reported = self->report_error(err, sb.data());\n  self->reset_state();\n  return reported;", "one-shot state reset only after the error handler returned (a throwing handler skips it)")
